@@ -252,3 +252,106 @@ Proof.
     right. exists segs', last'. repeat split; assumption.
 Qed.
 End Ops.
+
+(* ---------- a whole session on the frame  F ++ path ++ [?q] ++ [#f] ---------- *)
+Section Session.
+Variable dbg : bool.
+Variables (sch Z : list N) (ue hs he : N) (hi : host_internal) (pt : option N).
+Notation F := ((sch ++ [58]) ++ Z).
+Notation st := (scheme_type_of sch).
+Hypothesis Hf : st_is_file st = false.
+Notation U pre q f := (qf_url pre (nlen sch) ue hs he hi pt (nlen F) q f).
+
+Lemma scheme_frame_gen X ue' hs' he' hi' pt' ps' qs' fs' :
+  scheme (mkUrl (F ++ X) (nlen sch) ue' hs' he' hi' pt' ps' qs' fs') = Some sch.
+Proof.
+  unfold scheme, u_slice_to. cbn [ser scheme_end]. rewrite slice_to_o_some by (rewrite !nlen_app; lia).
+  rewrite <- !app_assoc. rewrite nfirstn_app_len. reflexivity.
+Qed.
+
+Lemma take_after_path_gen pre q f :
+  take_after_path (U pre q f)
+  = Some (mkUrl pre (nlen sch) ue hs he hi pt (nlen F) (qf_qs (nlen pre) q) (qf_fs (nlen pre) q f), qf_text q f).
+Proof.
+  unfold take_after_path.
+  assert (forall i, i = nlen pre ->
+            (a <- u_slice_from (U pre q f) i ;; Some (set_ser (U pre q f) (truncate (ser (U pre q f)) i), a))
+            = Some (mkUrl pre (nlen sch) ue hs he hi pt (nlen F) (qf_qs (nlen pre) q) (qf_fs (nlen pre) q f), qf_text q f)) as G0.
+  { intros i ->. unfold u_slice_from, qf_url. cbn [ser].
+    rewrite slice_from_o_some by (rewrite nlen_app; lia). rewrite nskipn_app_len. cbn [bindo].
+    unfold truncate. rewrite nfirstn_app_len. reflexivity. }
+  destruct q as [x|]; [|destruct f as [y|]].
+  - change (query_start (U pre (Some x) f)) with (Some (nlen pre)). cbv iota. exact (G0 _ eq_refl).
+  - change (query_start (U pre None (Some y))) with (@None N).
+    change (fragment_start (U pre None (Some y))) with (Some (nlen pre + nlen (qf_qtext None))). cbv iota.
+    apply G0. cbn [qf_qtext]. rewrite nlen_nil. lia.
+  - change (query_start (U pre None None)) with (@None N). change (fragment_start (U pre None None)) with (@None N). cbv iota.
+    rewrite U_none_none. reflexivity.
+Qed.
+
+Section Run.
+Variables (qs fs : option N) (ap : list N) (op : N).
+Definition G (X : list N) : psm := mkPsm (mkUrl (F ++ X) (nlen sch) ue hs he hi pt (nlen F) qs fs) (nlen F + 1) ap op.
+
+Lemma G_with X s : psm_with (G X) (F ++ s) = G s.
+Proof. reflexivity. Qed.
+
+Lemma extend_inv X segments p' : PI st X -> Forall usv_list segments -> psm_extend dbg (G X) segments = Some p' ->
+  exists X', PI st X' /\ p' = G X'.
+Proof.
+  intros HX Hu H. unfold psm_extend in H. cbn [psm_url G] in H. unfold u_scheme_type in H. rewrite scheme_frame_gen in H.
+  cbn [bindo path_start ser] in H.
+  destruct (psm_extend_loop dbg st (nlen F) (F ++ X) segments) as [s'|] eqn:El; cbn [bindo] in H; [|discriminate H].
+  destruct (pi_extend dbg st F Hf segments X s' HX Hu El) as (X' & -> & HX').
+  inversion H; subst p'. exists X'. split; [exact HX' | apply G_with].
+Qed.
+
+Lemma apply_inv X o p' : PI st X -> psm_op_usv o -> psm_apply dbg (G X) o = Some p' -> exists X', PI st X' /\ p' = G X'.
+Proof.
+  intros HX Ho H. destruct o; cbn [psm_apply psm_op_usv] in *.
+  - inversion H; subst p'. unfold psm_clear. cbn [psm_url G ser after_first_slash].
+    destruct (pi_clear st F X HX) as (X' & E & HX'). rewrite E. exists X'. split; [exact HX' | apply G_with].
+  - inversion H; subst p'. unfold psm_pop_if_empty. cbn [psm_url G ser after_first_slash].
+    destruct (pi_pop_if_empty st F X HX) as (X' & E & HX'). cbv zeta in E.
+    destruct (nlen (F ++ X) <=? nlen F + 1); [exists X; split; [exact HX | reflexivity]|].
+    destruct (ends_with_byte 47 (nskipn (nlen F + 1) (F ++ X))); [|exists X; split; [exact HX | reflexivity]].
+    rewrite E. exists X'. split; [exact HX' | apply G_with].
+  - inversion H; subst p'. unfold psm_pop. cbn [psm_url G ser after_first_slash].
+    destruct (pi_pop st F X HX) as (X' & E & HX'). cbv zeta in E.
+    destruct (nlen (F ++ X) <=? nlen F + 1); [exists X; split; [exact HX | reflexivity]|].
+    rewrite E. exists X'. split; [exact HX' | apply G_with].
+  - unfold psm_push in H. apply (extend_inv X [s] p' HX); [constructor; [exact Ho | constructor] | exact H].
+  - exact (extend_inv X ss p' HX Ho H).
+Qed.
+
+Lemma run_inv ops : forall X p', PI st X -> Forall psm_op_usv ops -> psm_run dbg (G X) ops = Some p' ->
+  exists X', PI st X' /\ p' = G X'.
+Proof.
+  induction ops as [|o rest IH]; intros X p' HX Hu H; cbn [psm_run] in H.
+  - inversion H; subst p'. exists X. split; [exact HX | reflexivity].
+  - apply Forall_cons_iff in Hu. destruct Hu as [Ho Hrest].
+    destruct (psm_apply dbg (G X) o) as [p1|] eqn:Ea; cbn [bindo] in H; [|discriminate H].
+    destruct (apply_inv X o p1 HX Ho Ea) as (X1 & HX1 & ->). exact (IH X1 p' HX1 Hrest H).
+Qed.
+End Run.
+
+Theorem session_frame X q f ops u' status : PI st X -> Forall psm_op_usv ops ->
+  cannot_be_a_base (U (F ++ X) q f) = Some false ->
+  path_segments_session dbg (U (F ++ X) q f) ops = Some (u', status) ->
+  exists X', PI st X' /\ u' = U (F ++ X') q f.
+Proof.
+  intros HX Hu Ec H. unfold path_segments_session, path_segments_mut in H.
+  rewrite Ec in H. cbn [bindo] in H. unfold psm_new in H. rewrite take_after_path_gen in H. cbn [bindo] in H.
+  unfold u_scheme_type in H. rewrite scheme_frame_gen in H. cbn [bindo] in H.
+  match type of H with context [if dbg then ?a else ?b] => destruct (if dbg then a else b) as [[]|] end;
+    cbn [bindo] in H; [|discriminate H].
+  cbn [path_start ser] in H.
+  fold (G (qf_qs (nlen (F ++ X)) q) (qf_fs (nlen (F ++ X)) q f) (qf_text q f) (nlen (F ++ X)) X) in H.
+  destruct (psm_run dbg (G _ _ _ _ X) ops) as [p1|] eqn:Er; cbn [bindo] in H; [|discriminate H].
+  destruct (run_inv _ _ _ _ ops X p1 HX Hu Er) as (X' & HX' & ->).
+  unfold psm_close, G in H. cbn [psm_url psm_old_pos psm_after_path] in H.
+  unfold restore_after_path, set_ser in H. cbn [ser query_start fragment_start scheme_end username_end host_start host_end hosti port path_start] in H.
+  rewrite adjust_qs0, adjust_fs0 in H. cbn [bindo] in H.
+  inversion H; subst u'. exists X'. split; [exact HX' | reflexivity].
+Qed.
+End Session.
